@@ -15,6 +15,8 @@ package main
 //	                                 whatever the previous calls of the history left / re-allocated), as the callers
 //	                                 in obiclean / obitag / obirefidx do; every call is compared with the same call
 //	                                 on a fresh buffer                               -> "s,l,end s,l,end ..."
+//	lcslong <x> <n> <tA> <y> <m> <tB> <e> <egf>   long sequences in compact form (c09_long.go): lengths below, at and
+//	                                 above the sentinel length 30000                 -> "score length end"
 //	d1 <A> <B>                       D1Or0 on two BioSequences                       -> "verdict pos a1 a2"
 //	lcsall <A> <maxlen> <e> <egf>    every B over {a,c,g,t} of length <= maxlen (canonical order) against A
 //	                                                                                 -> "count checksum"
@@ -261,6 +263,10 @@ func (c09) Gen(rng *rand.Rand, tier string, emit func(string)) {
 		"d1 - -", "d1 61 -", "d1 - 61", "d1 61 61", "d1 61 63", "d1 616162 6162", "d1 6162 6261", "d1 6162 626162",
 		"d1 61636774 61676374", "d1 6161 61", "d1 61 6161", "d1 616161 61", "d1 2d61 61", "d1 4143 6163",
 	} {
+		emit(c)
+	}
+	// ---- long sequences around the sentinel length 30000 (c09_long.go) ---------------------------------------------
+	for _, c := range c09LongCorpus(thorough) {
 		emit(c)
 	}
 	// ---- histories of calls on one scratch buffer ---------------------------------------------------------------
@@ -547,6 +553,11 @@ func c09CheckLCS(a, b []byte, e int, egf bool, fill string, s, l, end int, fail 
 	if (s < 0) != (l < 0) || s < -1 || l < -1 {
 		fail("lcs.malformed", "%s: returned (%d,%d)", pair, s, l)
 	}
+	// the third result: 0 with endgapfree = false, a column of the longer sequence with endgapfree = true
+	// (fastLCS_verbatim_refines / fastLCSEGF_verbatim_refines), -1 exactly with "not found"
+	if (s == -1) != (end == -1) || (s >= 0 && !egf && end != 0) || (s >= 0 && egf && (end < 0 || end > max(len(a), len(b)))) {
+		fail("lcs.end-range", "%s: returned (%d,%d) with end = %d", pair, s, l, end)
+	}
 	if !c09AllIupac(a) || !c09AllIupac(b) {
 		stat("lcs:no-oracle(non-iupac byte)")
 		return
@@ -697,6 +708,8 @@ func (c09) Exec(c string) (string, []Fail) {
 			}
 			c09CheckLCS(a, b, e, egf, f[5], s, l, end, fail)
 			return fmt.Sprintf("%d %d %d", s, l, end)
+		case f[0] == "lcslong" && len(f) == 9:
+			return c09ExecLong(f, fail)
 		case f[0] == "lcsseq" && len(f) >= 5 && (len(f)-1)%4 == 0:
 			type call struct {
 				a, b []byte
